@@ -52,3 +52,39 @@ Proof. reflexivity. Qed.
 (* the five prefix productions of expr_unary, each with %prec UNARY *)
 Definition unary_prec_spec : list (string * string) :=
   [("'-'", "UNARY"); ("'!'", "UNARY"); ("'^'", "UNARY"); ("'&'", "UNARY"); ("'*'", "UNARY")].
+
+(* ---- comparison up to what does not matter: the order of the tokens inside one %left / %right line,
+        and the lines that hold no binary operator of the expression language ---- *)
+Fixpoint insert_nat (x : nat) (l : list nat) : list nat :=
+  match l with [] => [x] | y :: r => if Nat.leb x y then x :: l else y :: insert_nat x r end.
+Definition sort_nat (l : list nat) : list nat := fold_right insert_nat [] l.
+Definition norm_table (t : list (assoc * list nat)) : list (assoc * list nat) := map (fun l => (fst l, sort_nat (snd l))) t.
+
+Definition assoc_eqb (a b : assoc) : bool := match a, b with L, L | R, R => true | _, _ => false end.
+Fixpoint natlist_eqb (a b : list nat) : bool :=
+  match a, b with [], [] => true | x :: a', y :: b' => Nat.eqb x y && natlist_eqb a' b' | _, _ => false end.
+Fixpoint table_eqb (a b : list (assoc * list nat)) : bool :=
+  match a, b with
+  | [], [] => true
+  | (x, l) :: a', (y, m) :: b' => assoc_eqb x y && natlist_eqb l m && table_eqb a' b'
+  | _, _ => false
+  end.
+
+(* position of the line that holds a token *)
+Fixpoint line_of (tok : string) (ls : list (bool * list string)) (i : nat) : option nat :=
+  match ls with
+  | [] => None
+  | l :: r => if existsb (String.eqb tok) (snd l) then Some i else line_of tok r (S i)
+  end.
+
+Definition grammar_matches_spec (ls : list (bool * list string)) (unary : list (string * string)) : bool :=
+  table_eqb (norm_table (table_of_lines ls)) (norm_table T_spec)
+  (* the prefix operators bind tighter than every binary operator: %prec UNARY, declared after IN *)
+  && match line_of "UNARY" ls 0, line_of "IN" ls 0 with Some u, Some i => Nat.ltb i u | _, _ => false end
+  && forallb (fun p => existsb (fun q => String.eqb (fst p) (fst q) && String.eqb (snd q) "UNARY") unary) unary_prec_spec
+  && Nat.eqb (List.length unary) (List.length unary_prec_spec)
+  (* the postfix openers carry no precedence of their own *)
+  && negb (existsb (fun t => match line_of t ls 0 with Some _ => true | None => false end) ["'('"; "'['"; "'.'"]).
+
+Lemma spec_matches_itself : grammar_matches_spec prec_lines_spec unary_prec_spec = true.
+Proof. reflexivity. Qed.
